@@ -55,6 +55,18 @@ CHECKS = {
           "(thorough) over a scalar and a 2-element register rendered through every access path, plus random histories.", "DESIGN.md §6 C06"),
    note="Trusted: Coq kernel; extraction; glue; hooks H1-H3. Only the qubit-relevant part of the evaluator is modelled.",
    technique="Coq proof (state-machine invariant) + exhaustive-small extraction-based correspondence"),
+ "C07": dict(
+   level=("proof", "Coq theorems (axiom-free, for an arbitrary float type) about a reference interpreter written from the language guide: every "
+          "binary/unary operator and cast applied to well-formed values of documented operand types yields a value of exactly the documented result "
+          "type (int->long->float promotion, '/' always float, '%' integer only, comparisons/logic boolean, bit/bit[] bitwise) or a documented runtime "
+          "error and is never stuck; array literal/element conversions are the documented ones; writing one variable changes no other (array copies are "
+          "independent); a call binds its arguments in a fresh environment and returns the caller's untouched. The implementation is tied to the "
+          "interpreter by differential execution of type-directed generated programs (all operand type pairs, nesting of control flow, call graphs, "
+          "recursion, array copies, bounds and arithmetic errors), comparing echoed output and the runtime error raised. Whole-program type soundness "
+          "of the interpreter is not yet proved (operator level only).", "DESIGN.md §6 C07"),
+   note="Trusted: Coq kernel; extraction; OCaml float instance (IEEE double, printf %g/%.1f); generator renders one tree twice; drv_prog. Results the "
+        "documentation does not fix (long overflow, float->integer out of range) are flagged by the interpreter and skipped.",
+   technique="Coq proof (case analysis over the value universe) + extraction-based differential testing of generated programs"),
  "C14": dict(
    level=("proof", "Coq theorems (axiom-free) on a model of the expression parser (assignment level, Pratt loop with the binding-power table, "
           "prefix, primary, casts, argument and array-literal lists): for every well-parenthesised tree over all expression forms, parsing its "
